@@ -401,7 +401,7 @@ def specCheck (prop : String) (s : S) (endStatus : String) (parked : String := "
       firstSome s.blockedSeen (fun b => if (b.splitOn "asyncWrite").length > 1 then some s!"non-blocking mode: writer parked waiting for queue space ({b})" else none)
     else none
   -- C18: cancellation is honoured while waiting for queue space
-  let c9 := s.ctxParked.map (fun b => s!"a writer whose context is already cancelled is parked waiting for queue space ({b})")
+  let c9 := s.ctxParked.map (fun b => s!"a writer whose context is already cancelled is parked ({b}) instead of returning: waiting for queue space, or for a lock taken on the way to the queue")
   -- buffered transport: the connection must have received exactly the bytes handed to the transport, once and in
   -- order: a prefix of them, and all of those written before the last flush
   let c10 := match s.conn with
@@ -442,7 +442,8 @@ def handle (prop : String) (s : S) : List String → S × String
       | [tn, point] =>
         let t := getThr s tn
         let cancelled := t.ctx == "done" || (t.ctx.startsWith "k" && (s.ctxs[((t.ctx.drop 1).toString.toNat?).getD 9]?).getD false)
-        if cancelled && (point.splitOn "asyncWrite").length > 1 && s.ctxParked.isNone then { s with ctxParked := some b } else s
+        -- … nor anywhere else inside a context-aware write on a queued channel (a lock taken before the queue is looked at)
+        if cancelled && ((point.splitOn "asyncWrite").length > 1 || (!s.st.sync && point.startsWith "CtxWrite")) && s.ctxParked.isNone then { s with ctxParked := some b } else s
       | _ => s) s
     (doStep s tid label (case.toInt?.getD (-2)) events, "ok")
   | ["end", status, parked] =>
